@@ -116,7 +116,7 @@ func c17map(r *rand.Rand) map[string]interface{} {
 		}
 		root["sec"] = secs
 	}
-	if r.Intn(4) == 0 {
+	if r.Intn(2) == 0 {
 		// more values than the initial result capacity of the query functions
 		wide := jv.L{}
 		for i, n := 0, 33+r.Intn(40); i < n; i++ {
@@ -306,6 +306,16 @@ func c17purity(c *core.Ctx) {
 			}
 		}
 	}
+	// Copy of small / empty Maps: still a new Map
+	for _, small := range []mxj.Map{{}, {"a": map[string]interface{}{}}, {"l": []interface{}{}}} {
+		cp2, err := small.Copy()
+		if err == nil {
+			cp2["\x00added"] = 1
+			if _, leaked := small["\x00added"]; leaked {
+				c.Violate("c17-copy-shares-structure", "Copy of a small Map returned the receiver itself: writing to the copy changed the original", core.D{"original": jv.Show(small)})
+			}
+		}
+	}
 	// ---- MapSeq ----
 	doc := xt.Render(r, c04gen.Gen(r, 1+r.Intn(3)), xt.Style{NoWS: true})
 	if ms, err := mxj.NewMapXmlSeq(doc); err == nil {
@@ -488,11 +498,18 @@ func c17round(c *core.Ctx) {
 	perG := 20 + r.Intn(40)
 	plan := make([][]c17op, G)
 	want := make([][]string, G)
+	// In half of the rounds the sequential reference results are computed AFTER the concurrent phase, so that state the
+	// library initialises lazily (tables, caches) is touched for the first time by concurrent goroutines.
+	concurrentFirst := c.Index%2 == 0
 	for g := 0; g < G; g++ {
 		for i := 0; i < perG; i++ {
 			op := mkOp()
 			plan[g] = append(plan[g], op)
-			want[g] = append(want[g], op.f()) // sequential result, computed beforehand
+			if concurrentFirst {
+				want[g] = append(want[g], "")
+			} else {
+				want[g] = append(want[g], op.f()) // sequential result, computed beforehand
+			}
 		}
 	}
 	// ---- concurrent execution ----
@@ -515,6 +532,14 @@ func c17round(c *core.Ctx) {
 	}
 	close(start)
 	wg.Wait()
+	if concurrentFirst {
+		c.Count("conc:rounds-concurrent-first")
+		for g := range recs {
+			for i := range recs[g] {
+				recs[g][i].want = plan[g][i].f() // sequential result, computed afterwards
+			}
+		}
+	}
 	// ---- offline check over the recorded history ----
 	var all []c17rec
 	for g := range recs {
